@@ -26,6 +26,8 @@ use std::time::Duration;
 
 const T_INS: &str = "INSERT INTO ks.cap (op, a, b, c) VALUES (?, ?, ?, ?)";
 const T_SEL: &str = "SELECT a FROM ks.cap WHERE op = ?";
+/// a conditional statement: the node marks it as LWT in its PREPARED answer (SCYLLA_LWT_ADD_METADATA_MARK)
+const T_LWT: &str = "INSERT INTO ks.cap (op, a, b, c) VALUES (?, ?, ?, ?) IF NOT EXISTS";
 
 /// Captures every non-system request; pages SELECTs with a scripted paging state.
 struct Capture {
@@ -42,7 +44,8 @@ fn op_from_values(v: &[Value]) -> Option<u64> {
 impl Handler for Capture {
     fn statement(&self, _node: &MockNode, query: &str) -> Option<StatementDef> {
         let mut d = StatementDef::new(query, &fw::hash_str(query).to_be_bytes());
-        if query == T_INS {
+        if query == T_INS || query == T_LWT {
+            d.lwt = query == T_LWT;
             d.bind = vec![
                 ColSpec::new("ks", "cap", "op", ColType::BigInt),
                 ColSpec::new("ks", "cap", "a", ColType::Int),
@@ -172,6 +175,7 @@ pub fn run_c09_b(ctx: &Ctx) -> Outcome {
         let mut spec = single_node_spec();
         spec.nodes[0].features.no_lz4 = no_lz4;
         spec.nodes[0].features.no_snappy = no_snappy;
+        spec.nodes[0].features.lwt_mark = Some(0x8000_0000);
         if mixed {
             spec.nodes[0].features.metadata_id = true;
             // (each node owns half of the ring, so that token-aware requests reach both)
@@ -203,6 +207,10 @@ pub fn run_c09_b(ctx: &Ctx) -> Outcome {
                 return;
             }
         };
+        let lwt = session.prepare(T_LWT).await.unwrap();
+        if lwt.is_confirmed_lwt() {
+            o.class("statement-marked-LWT-by-the-node");
+        }
         let mut sel = session.prepare(T_SEL).await.unwrap();
         if mixed {
             // the cached result metadata (and, where negotiated, its id) is used instead of asking for metadata again
@@ -242,7 +250,7 @@ pub fn run_c09_b(ctx: &Ctx) -> Outcome {
                     session.query_unpaged(st, vals).await.map(|_| ()).map_err(|e| e.to_string())
                 }
                 "execute_unpaged" => {
-                    let mut p = ins.clone();
+                    let mut p = if rng.chance(1, 3) { lwt.clone() } else { ins.clone() };
                     p.set_consistency(a.cl);
                     p.set_serial_consistency(a.serial);
                     p.set_timestamp(a.timestamp);
@@ -392,7 +400,7 @@ pub fn run_c09_b(ctx: &Ctx) -> Outcome {
     for c in ["compression:none", "compression:lz4-negotiated", "compression:snappy-negotiated", "compression:lz4-asked-node-offers-snappy-only", "compression:snappy-asked-node-offers-none", "mixed-cluster:metadata-id-extension-on-one-node-only", "mixed-cluster:EXECUTE-frames-on-the-node-without-the-extension"] {
         o.require_class(c);
     }
-    for c in ["api:query_unpaged", "api:execute_unpaged", "api:batch", "api:query_single_page", "api:execute_single_page", "paging-state-returned-verbatim", "frame-re-sent-after-UNPREPARED"] {
+    for c in ["api:query_unpaged", "api:execute_unpaged", "api:batch", "api:query_single_page", "api:execute_single_page", "paging-state-returned-verbatim", "frame-re-sent-after-UNPREPARED", "statement-marked-LWT-by-the-node"] {
         o.require_class(c);
     }
     o
@@ -405,6 +413,7 @@ pub fn run_c18_b(ctx: &Ctx) -> Outcome {
         let cap = Arc::new(Capture { seen: Mutex::new(vec![]) });
         let mut spec = single_node_spec();
         spec.keyspaces[0].tables.push(TableDef::new("cap", &[("op", "bigint")], &[("a", "int"), ("b", "text"), ("c", "bigint")]));
+        spec.nodes[0].features.lwt_mark = Some(0x8000_0000);
         let cluster = MockCluster::start(spec, cap.clone()).await;
         let session = match connect(&cluster, |b| b.timestamp_generator(Arc::new(MonotonicTimestampGenerator::new()))).await {
             Ok(s) => Arc::new(s),
@@ -414,6 +423,10 @@ pub fn run_c18_b(ctx: &Ctx) -> Outcome {
             }
         };
         let ins = Arc::new(session.prepare(T_INS).await.unwrap());
+        let lwt = Arc::new(session.prepare(T_LWT).await.unwrap());
+        if lwt.is_confirmed_lwt() {
+            o.class("statement-marked-LWT-by-the-node");
+        }
         let tasks = 16usize;
         let per = ctx.vol(150, 5000) as usize;
         let explicit: Arc<Mutex<HashMap<u64, i64>>> = Arc::new(Mutex::new(HashMap::new()));
@@ -434,7 +447,7 @@ pub fn run_c18_b(ctx: &Ctx) -> Outcome {
             })
         };
         for t in 0..tasks {
-            let (s, ins, explicit) = (session.clone(), ins.clone(), explicit.clone());
+            let (s, ins, lwt, explicit) = (session.clone(), ins.clone(), lwt.clone(), explicit.clone());
             let mut rng = Rng::new(ctx.seed, 1800 + t as u64);
             hs.push(tokio::spawn(async move {
                 for _ in 0..per {
@@ -470,7 +483,8 @@ pub fn run_c18_b(ctx: &Ctx) -> Outcome {
                             s.query_unpaged(st, ()).await.map(|_| ())
                         }
                         1 => {
-                            let mut p = (*ins).clone();
+                            // (every third one is a conditional statement the node marked as LWT)
+                            let mut p = if rng.chance(1, 3) { (*lwt).clone() } else { (*ins).clone() };
                             p.set_timestamp(ts);
                             s.execute_unpaged(&p, vals).await.map(|_| ())
                         }
@@ -536,7 +550,7 @@ pub fn run_c18_b(ctx: &Ctx) -> Outcome {
         }
         cluster.shutdown();
     });
-    for c in ["frame:QUERY", "frame:EXECUTE", "frame:BATCH", "explicit-timestamp-sent-unchanged", "execute-resent-after-unprepared"] {
+    for c in ["frame:QUERY", "frame:EXECUTE", "frame:BATCH", "explicit-timestamp-sent-unchanged", "execute-resent-after-unprepared", "statement-marked-LWT-by-the-node"] {
         o.require_class(c);
     }
     o
